@@ -10,6 +10,7 @@ Open Scope N_scope.
 (* ---- Monero block Base58 ---- *)
 Definition xmr_encode := Base58Xmr.encode xmr_alph b58_radix xmr_block_dec_max xmr_block_enc_max xmr_block_enc_lens.
 Definition xmr_decode := Base58Xmr.decode xmr_alph b58_radix xmr_block_dec_max xmr_block_enc_max xmr_block_enc_lens.
+Definition xmr_decode_current := Base58Xmr.decode_current xmr_alph b58_radix xmr_block_dec_max xmr_block_enc_max xmr_block_enc_lens.
 Definition xmr_b58dec := Base58Xmr.b58dec xmr_alph b58_radix.
 Definition xmr_b58enc := Base58Xmr.b58enc xmr_alph b58_radix.
 Definition xmr_block_value := Base58Xmr.block_value xmr_alph b58_radix.
